@@ -12,6 +12,7 @@
 //!   flush                                 flush_with into the in-memory object map; every crash prefix
 //!                                         of the recorded write sequence is loaded and compared
 //!   crashload <k>                         flush, keep only the first k writes, load that, go on with it
+//!   failflush <k>                         flush whose k-th backend write returns an error; go on in memory
 //!   reload                                load what the store holds, go on with it
 //!   compact                               compact_buckets
 //! params ::= def | <k1 bits hex>/<b bits hex>
@@ -55,7 +56,15 @@ pub struct Naive {
     /// `remove` with non-original text left behind, per document id. While the id is absent they
     /// are invisible; a re-insert of the id makes them visible again.
     pub stale: BTreeMap<u64, BTreeSet<String>>,
+    /// Classifier of the second known finding only: ids that were live *with visible left-over
+    /// entries* (removed with non-original text, re-inserted) and were then removed again. Buckets
+    /// holding only left-over entries of such an id are not rewritten by that remove, so a reload can
+    /// bring the document back. Cleared by `purge_ids`.
+    pub resurrectable: BTreeSet<u64>,
 }
+
+/// key of the second known finding: a removed document is back after flush + reload
+pub const KNOWN_RESURRECT: &str = "removed-doc-back-after-reload-following-stale-reinsert";
 
 /// key of the known finding: a document is returned for a token of an *earlier* text of the same id
 pub const KNOWN_STALE: &str = "stale-posting-visible-after-reinsert";
@@ -82,6 +91,9 @@ impl Naive {
     }
     fn on_remove(&mut self, id: u64, text_toks: &BTreeSet<String>) -> bool {
         let gone = self.docs.remove(&id);
+        if gone.is_some() && self.stale.get(&id).is_some_and(|s| !s.is_empty()) {
+            self.resurrectable.insert(id);
+        }
         let st = self.stale.entry(id).or_default();
         if let Some((toks, _)) = &gone {
             st.extend(toks.iter().cloned());
@@ -91,6 +103,7 @@ impl Naive {
     }
     fn on_purge(&mut self, id: u64) -> bool {
         self.stale.remove(&id);
+        self.resurrectable.remove(&id);
         self.docs.remove(&id).is_some()
     }
     /// `load_buckets` prunes the entries of documents without a length
@@ -158,6 +171,43 @@ fn conv_avg(ans: &str) -> String {
         .join(" ")
 }
 
+pub type Battery = Vec<(String, String)>;
+
+const BATTERY_QUERIES: [&str; 4] = ["NOT alpha", "(alpha AND NOT beta)", "(NOT gamma AND NOT fox)", "(run OR (beta AND lazy))"];
+
+fn show_battery(b: &Battery) -> String {
+    b.iter().map(|(l, v)| format!("{l}={v}")).collect::<Vec<_>>().join(" ")
+}
+
+/// the two batteries differ only in documents of `g`: lengths of other documents agree and every
+/// answer set differs by ids of `g` only
+fn confined(got: &Battery, exp: &Battery, g: &BTreeSet<u64>) -> bool {
+    if got.len() != exp.len() {
+        return false;
+    }
+    let ids = |v: &str| -> BTreeSet<u64> { v.split(',').filter_map(|x| x.split(':').next().and_then(|i| i.parse().ok())).collect() };
+    for ((lg, vg), (le, ve)) in got.iter().zip(exp.iter()) {
+        if lg != le {
+            return false;
+        }
+        match lg.as_str() {
+            "n" | "avg" => {}
+            "docs" => {
+                let keep = |v: &str| -> Vec<String> { v.split(',').filter(|x| x.split(':').next().and_then(|i| i.parse::<u64>().ok()).is_some_and(|i| !g.contains(&i))).map(|x| x.to_string()).collect() };
+                if keep(vg) != keep(ve) {
+                    return false;
+                }
+            }
+            _ => {
+                if ids(vg).symmetric_difference(&ids(ve)).any(|i| !g.contains(i)) {
+                    return false;
+                }
+            }
+        }
+    }
+    true
+}
+
 fn dash(s: String) -> String {
     if s.is_empty() { "-".into() } else { s }
 }
@@ -193,6 +243,7 @@ pub struct World<'m> {
     model: Option<&'m mut ModelProc>,
     pub res: CaseResult,
     stop: bool,
+    oracle_count: u64,
 }
 
 enum Kind {
@@ -214,6 +265,7 @@ impl<'m> World<'m> {
             model,
             res: CaseResult::default(),
             stop: false,
+            oracle_count: 0,
         };
         for word in VOCAB {
             let t = w.tokens(word);
@@ -255,6 +307,9 @@ impl<'m> World<'m> {
         }
         if let Some(m) = self.model.as_deref_mut() {
             let ans = conv_avg(&m.ask(line));
+            if std::env::var_os("VH_C11_TRACE").is_some() {
+                eprintln!("MODEL> {line}\nMODEL< {ans}");
+            }
             self.res.compared += 1;
             if ans != imp {
                 self.res.disagreements.push((format!("{what} [model line: {line}]"), ans, imp.to_string()));
@@ -264,7 +319,12 @@ impl<'m> World<'m> {
     }
 
     fn oracle(&mut self, key: &str, what: &str, expected: String, observed: String) {
-        if self.res.oracle.len() < 4 {
+        if key == KNOWN_RESURRECT && (what.contains(": reload") || what.contains(": crashload")) {
+            // the live index now holds the resurrected document: the rest of the case is moot
+            self.stop = true;
+        }
+        self.oracle_count += 1;
+        if self.res.oracle.iter().filter(|o| o.0 == key).count() < 2 && self.res.oracle.len() < 12 {
             self.res.oracle.push((key.to_string(), what.to_string(), expected, observed));
         }
     }
@@ -402,6 +462,10 @@ impl<'m> World<'m> {
                 let k = rest.first().and_then(|s| s.parse::<usize>().ok()).unwrap_or(0);
                 self.flush_all_prefixes(&what, Some(k));
             }
+            "failflush" => {
+                let k = rest.first().and_then(|s| s.parse::<usize>().ok()).unwrap_or(0);
+                self.fail_flush(&what, k);
+            }
             "reload" => {
                 match self.load(&self.store.clone()) {
                     Ok(ix) => {
@@ -421,7 +485,7 @@ impl<'m> World<'m> {
                 self.hit(&format!("compact:{}", if new < old { "shrunk" } else { "same" }));
                 let after = self.battery_answers(&self.index);
                 if before != after {
-                    self.oracle("compact-changes-answers", &what, before, after);
+                    self.oracle("compact-changes-answers", &what, show_battery(&before), show_battery(&after));
                 }
                 self.battery(&what, "compact", None);
             }
@@ -518,8 +582,10 @@ impl<'m> World<'m> {
             }
         }
         // ---- oracle: top-k is a prefix of the full list, for every k; repeated queries agree
-        let mut tops: Vec<Vec<u64>> = Vec::new();
-        for k in 0..=n + 1 {
+        let mut tops: Vec<(usize, Vec<u64>)> = Vec::new();
+        // every k up to n+1; for very long result lists a spread of k
+        let ks: Vec<usize> = if n <= 40 { (0..=n + 1).collect() } else { vec![0, 1, 2, 3, 5, 8, n / 2, n - 1, n, n + 1] };
+        for k in ks {
             let r = Self::call(&self.index, &kind, k, &p).unwrap_or_default();
             let rid: Vec<u64> = r.iter().map(|x| x.0).collect();
             if rid != ids[..k.min(n)] {
@@ -528,7 +594,7 @@ impl<'m> World<'m> {
             if r.iter().zip(full.iter()).any(|(a, b)| a.1.to_bits() != b.1.to_bits()) {
                 self.res.score_bits_differ_between_calls += 1;
             }
-            tops.push(rid);
+            tops.push((k, rid));
         }
         let again = Self::call(&self.index, &kind, BIG, &p).unwrap_or_default();
         let aid: Vec<u64> = again.iter().map(|x| x.0).collect();
@@ -538,8 +604,13 @@ impl<'m> World<'m> {
         // ---- correspondence
         let mut sorted = ids.clone();
         sorted.sort();
+        if n > 200 {
+            // the model's insertion sort is quadratic: for a huge result only the set is compared
+            self.corr(what, &format!("q - {qline}"), &format!("ok set={} rank=-", dash(join(sorted.iter(), ","))));
+            return;
+        }
         self.corr(what, &format!("q {scored} {qline}"), &format!("ok set={} rank={}", dash(join(sorted.iter(), ",")), dash(join(ids.iter(), ","))));
-        for (k, rid) in tops.iter().enumerate() {
+        for (k, rid) in tops.iter() {
             self.corr(what, &format!("topk {k} {scored}"), &dash(join(rid.iter(), ",")));
         }
     }
@@ -571,6 +642,68 @@ impl<'m> World<'m> {
         Ok((ws, out.saved))
     }
 
+    /// A flush whose `k`-th backend write fails (the process survives): the writes before it are
+    /// durable, the error is returned, nothing may be published in memory — the live index still
+    /// answers as before, the store still loads to the last committed snapshot, and a later flush
+    /// persists everything (checked there).
+    fn fail_flush(&mut self, what: &str, k: usize) {
+        let rec: RefCell<Vec<W>> = RefCell::new(Vec::new());
+        let n: RefCell<usize> = RefCell::new(0);
+        let out = futures::executor::block_on(self.index.flush_with(
+            0,
+            |data: Vec<u8>| {
+                let i = *n.borrow();
+                *n.borrow_mut() += 1;
+                if i == k {
+                    return std::future::ready(Err("injected metadata write failure".into()));
+                }
+                rec.borrow_mut().push(W::Meta(data));
+                std::future::ready(Ok(()))
+            },
+            |o: BucketObject, data: Vec<u8>| {
+                let i = *n.borrow();
+                *n.borrow_mut() += 1;
+                if i == k {
+                    return std::future::ready(Err("injected bucket write failure".into()));
+                }
+                rec.borrow_mut().push(W::Obj((o.bucket_id, o.generation), data));
+                std::future::ready(Ok(()))
+            },
+        ));
+        let ws = rec.into_inner();
+        for w in &ws {
+            self.store.apply(w);
+        }
+        match out {
+            Ok(o) => {
+                // the failing position was beyond the last write: an ordinary complete flush
+                for ob in &o.obsolete {
+                    self.store.apply(&W::Del((ob.bucket_id, ob.generation)));
+                }
+                if o.saved {
+                    self.committed = self.naive.clone();
+                }
+                self.hit("failflush:completed");
+            }
+            Err(_) => {
+                self.hit("failflush:failed");
+                if ws.iter().any(|w| matches!(w, W::Meta(_))) {
+                    self.oracle("failed-flush-committed", what, "no metadata write in a flush that returned an error".into(), "metadata written".into());
+                }
+            }
+        }
+        self.battery(what, "failed-flush", None);
+        let mut expect = self.committed.clone();
+        expect.on_load();
+        match self.load(&self.store.clone()) {
+            Ok(ix) => {
+                let got = self.battery_answers(&ix);
+                self.judge("load-after-failed-flush", what, "", got, &expect);
+            }
+            Err(e) => self.oracle("load-after-failed-flush", what, "load succeeds".into(), e),
+        }
+    }
+
     fn load(&self, store: &MemStore) -> Result<Index, String> {
         let Some(meta) = &store.meta else {
             return Ok(BM25Index::new("c11".into(), default_tokenizer(), Some(self.cfg.clone())));
@@ -581,48 +714,63 @@ impl<'m> World<'m> {
         .map_err(|e| e.to_string())
     }
 
-    /// answers of a fixed battery of queries + the counters, as one canonical string
-    fn battery_answers(&self, index: &Index) -> String {
-        let mut out = self.impl_state_line(index);
+    /// answers of a fixed battery of queries + the counters: (label, value) items
+    fn battery_answers(&self, index: &Index) -> Battery {
+        let st = index.stats();
+        let docs: Vec<String> = self.seen.iter().filter_map(|i| index.get_doc_tokens(*i).map(|n| format!("{i}:{n}"))).collect();
+        let mut out: Battery = vec![
+            ("n".into(), index.len().to_string()),
+            ("avg".into(), st.avg_doc_tokens.to_bits().to_string()),
+            ("docs".into(), dash(docs.join(","))),
+        ];
         for w in VOCAB {
             let mut ids: Vec<u64> = index.search(w, BIG, None).iter().map(|x| x.0).collect();
             ids.sort();
-            out.push_str(&format!(" {w}={}", dash(join(ids.iter(), ","))));
+            out.push((w.to_string(), dash(join(ids.iter(), ","))));
         }
-        for q in ["NOT alpha", "(alpha AND NOT beta)", "(NOT gamma AND NOT fox)", "(run OR (beta AND lazy))"] {
+        for q in BATTERY_QUERIES {
             let mut ids: Vec<u64> = index.try_search_advanced(q, BIG, None).unwrap_or_default().iter().map(|x| x.0).collect();
             ids.sort();
-            out.push_str(&format!(" [{q}]={}", dash(join(ids.iter(), ","))));
+            out.push((format!("[{q}]"), dash(join(ids.iter(), ","))));
         }
         out
     }
 
-    fn naive_battery(&mut self, naive: &Naive) -> String {
-        let mut out = naive.state_line();
+    fn naive_battery(&mut self, naive: &Naive) -> Battery {
+        let mut out: Battery = vec![
+            ("n".into(), naive.docs.len().to_string()),
+            ("avg".into(), naive.avg_bits().to_string()),
+            ("docs".into(), dash(join(naive.docs.iter().map(|(i, (_, n))| format!("{i}:{n}")), ","))),
+        ];
         for w in VOCAB {
             let toks = self.token_set(w);
-            out.push_str(&format!(" {w}={}", dash(join(naive.with_any(&toks).iter(), ","))));
+            out.push((w.to_string(), dash(join(naive.with_any(&toks).iter(), ","))));
         }
-        for q in ["NOT alpha", "(alpha AND NOT beta)", "(NOT gamma AND NOT fox)", "(run OR (beta AND lazy))"] {
+        for q in BATTERY_QUERIES {
             let tree = read_tree(q).unwrap();
             let mut f = |s: &str| self.token_set(s);
             let ids = naive.clone().eval(&tree, &mut f);
-            out.push_str(&format!(" [{q}]={}", dash(join(ids.iter(), ","))));
+            out.push((format!("[{q}]"), dash(join(ids.iter(), ","))));
         }
         out
     }
 
     /// `got` (battery answers of some index) against the oracle state `nv`
-    fn judge(&mut self, key: &str, what: &str, detail: &str, got: String, nv: &Naive) {
+    fn judge(&mut self, key: &str, what: &str, detail: &str, got: Battery, nv: &Naive) {
         let exp = self.naive_battery(nv);
         if got == exp {
             return;
         }
         let mut key = key.to_string();
-        if nv.has_visible_stale() && got == self.naive_battery(&nv.stale_view()) {
+        let stale = if nv.has_visible_stale() { Some(self.naive_battery(&nv.stale_view())) } else { None };
+        if stale.as_ref() == Some(&got) {
             key = KNOWN_STALE.to_string();
+        } else if !nv.resurrectable.is_empty()
+            && (confined(&got, &exp, &nv.resurrectable) || stale.as_ref().is_some_and(|s| confined(&got, s, &nv.resurrectable)))
+        {
+            key = KNOWN_RESURRECT.to_string();
         }
-        self.oracle(&key, what, format!("{detail}{exp}"), got);
+        self.oracle(&key, what, format!("{detail}{}", show_battery(&exp)), show_battery(&got));
     }
 
     /// the live index answers the battery like the oracle does
@@ -649,11 +797,11 @@ impl<'m> World<'m> {
         let commit = ws.iter().position(|w| matches!(w, W::Meta(_)));
         // ---- shape of the write sequence (independent of the model)
         self.check_shape(what, &d0, &ws, saved);
-        // ---- the model sees the decoded writes and predicts every prefix
-        self.model_flush(what, &d0, &ws);
         // ---- every prefix
+        let fired_before = self.oracle_count;
         let mut d = d0.clone();
         let upto = ws.len();
+        let mut adopt: Option<(Index, Naive, MemStore, bool)> = None;
         for k in 0..=upto {
             if k > 0 {
                 d.apply(&ws[k - 1]);
@@ -666,21 +814,27 @@ impl<'m> World<'m> {
                 Ok(ix) => {
                     let got = self.battery_answers(&ix);
                     self.judge("crash-prefix-load", what, &format!("prefix {k}/{upto} ({}): ", if new_side { "new" } else { "old" }), got, &expect);
-                    // a second load of the same bytes gives the same answers (recovery is repeatable)
                     if let Some(sk) = stop_at
                         && sk.min(upto) == k
                     {
-                        self.index = ix;
-                        self.naive = expect.clone();
-                        self.committed = expect;
-                        self.store = d.clone();
-                        self.hit(&format!("crashload:{}", if new_side { "new" } else { "old" }));
-                        self.sync_model_after_load(what);
-                        return;
+                        adopt = Some((ix, expect, d.clone(), new_side));
+                        break;
                     }
                 }
                 Err(e) => self.oracle("crash-prefix-load", what, format!("prefix {k}/{upto} loads"), e),
             }
+        }
+        // ---- the model sees the decoded writes and predicts every prefix
+        let oracle_fired = self.oracle_count > fired_before;
+        self.model_flush(what, &d0, &ws, oracle_fired);
+        if let Some((ix, expect, store, new_side)) = adopt {
+            self.index = ix;
+            self.naive = expect.clone();
+            self.committed = expect;
+            self.store = store;
+            self.hit(&format!("crashload:{}", if new_side { "new" } else { "old" }));
+            self.sync_model_after_load(what);
+            return;
         }
         self.store = d;
         if saved || commit.is_some() {
@@ -778,7 +932,7 @@ impl<'m> World<'m> {
 
     /// Sends the durable state before the flush and the decoded write sequence to the model; the
     /// model answers, for every prefix, what `load_all` yields; compared with the real loads.
-    fn model_flush(&mut self, what: &str, d0: &MemStore, ws: &[W]) {
+    fn model_flush(&mut self, what: &str, d0: &MemStore, ws: &[W], oracle_fired: bool) {
         if self.model.is_none() || self.stop {
             return;
         }
@@ -816,7 +970,20 @@ impl<'m> World<'m> {
             };
             self.corr(what, &format!("loadprefix {k}"), &imp);
         }
-        self.corr(what, "flushcheck", "ok");
+        // `flushcheck`: the shape predicates of the crash theorem hold of the observed writes, and what
+        // was persisted is a full snapshot of the model's in-memory state. A snapshot mismatch on a
+        // flush the independent oracle also rejects is the same (implementation) failure seen twice;
+        // otherwise it is a broken correspondence.
+        if let Some(m) = self.model.as_deref_mut()
+            && !self.stop
+        {
+            let ans = m.ask("flushcheck");
+            self.res.compared += 1;
+            if ans != "ok" && !(ans.starts_with("snapshot-mismatch") && oracle_fired) {
+                self.res.disagreements.push((format!("{what} [model line: flushcheck]"), ans, "ok".into()));
+                self.stop = true;
+            }
+        }
     }
 
     /// contents of a loaded index as far as they are observable: lengths and, per vocabulary
